@@ -67,7 +67,76 @@ class C15(object):
     modelled = ("the Markov-variable optimisers (Wyner, exact common information) are compared with the same model construction "
                 "followed by their axis permutation; the optimisers' searches are not modelled")
 
+    def gen_trivial(self, rng, tier):
+        """The trivial bounds of dit.multivariate.secret_key_agreement.trivial_bounds against their formulas evaluated by the
+        model (Props/C15Bounds.lean proves that every channel Z -> W obeys them)."""
+        for _ in range(24 if tier == 'quick' else 1500):
+            n = rng.choice([3, 3, 4])
+            c = gen.rand_dist_case(rng, nmin=n, nmax=n, amax=2 if rng.random() < 0.7 else 3, bases=['linear'],
+                                   allow_space=False, allow_names=True, max_support=8, klasses=('str', 'tuple'))
+            gen.avoid_subnull(c)
+            if c.get('names') and any(len(str(x)) > 1 for x in c['names']):
+                # names longer than one character are split by dit.utils.flatten (known finding of C04 / C05): single letters
+                c['names'] = rng.sample(list('abcdXYZW'), n)
+            perm = list(range(n))
+            rng.shuffle(perm)
+            k = rng.choice([2, 2, 3]) if n == 4 else 2
+            c['kind'] = 'trivial'
+            c['groups'] = [[v] for v in perm[:k]]
+            c['crvs'] = [perm[k]]
+            # how the variables are addressed: indices (rv_mode left to the distribution or passed), or names
+            c['address'] = rng.choice(['indices', 'indices-explicit', 'names', 'names-explicit'])
+            c['cls'] = 'TRIVIAL'
+            c['xkind'] = 'none'
+            yield c
+
+    def run_trivial(self, case, drv, r):
+        dit = import_dit()
+        from canon import f2bits, bits2f
+        from dit.multivariate.secret_key_agreement import trivial_bounds as tb
+        d = gen.build(case)
+        names = case.get('names')
+        addr = case['address']
+        if names is None and addr.startswith('names'):
+            addr = 'indices' + addr[5:]
+        r.features += ['address=%s' % addr, 'groups=%d' % len(case['groups']), 'named=%s' % (names is not None)]
+        nm = (lambda g: [names[i] for i in g]) if addr.startswith('names') else (lambda g: list(g))
+        kw = {}
+        if addr.endswith('explicit'):
+            kw['rv_mode'] = 'names' if addr.startswith('names') else 'indices'
+        elif names is not None and addr == 'indices':
+            # a named distribution reads bare arguments as names: indices need the explicit mode
+            kw['rv_mode'] = 'indices'
+        groups, crvs = case['groups'], case['crvs']
+        rows = [(o, float(Fraction(p))) for o, p in zip(case['outs'], case['pmf']) if Fraction(p) > 0]
+        ftab = [[list(o), f2bits(v)] for o, v in rows]
+        M = lambda name, g, z: bits2f(drv.call('combf', [name, 0, [sorted(x) for x in g], sorted(z), ftab]))
+        r.nontrivial = len(rows) >= 3
+        G, Z = [nm(g) for g in groups], nm(crvs)
+        checks = []
+        for name, f in (('total_correlation', tb.upper_intrinsic_total_correlation),
+                        ('dual_total_correlation', tb.upper_intrinsic_dual_total_correlation),
+                        ('caekl_mutual_information', tb.upper_intrinsic_caekl_mutual_information)):
+            checks.append(('upper_intrinsic_' + name, float(f(d, G, Z, **kw)), min(M(name, groups, []), M(name, groups, crvs))))
+        if len(groups) == 2:
+            X, Y = groups
+            ixy = M('cmi', [X, Y], [])
+            lo = max(0.0, ixy - M('cmi', [X, crvs], []), ixy - M('cmi', [Y, crvs], []))
+            checks.append(('lower_intrinsic_mutual_information', float(tb.lower_intrinsic_mutual_information(d, G, Z, **kw)), lo))
+            up = min(ixy, M('cmi', [X, Y], crvs))
+            # the statement: the trivial bounds bracket every feasible value, in particular each other
+            if lo > up + 1e-9:
+                r.oracle_fail = 'the trivial lower bound %r exceeds the trivial upper bound %r' % (lo, up)
+                return
+        for name, got, want in checks:
+            r.detail = dict(r.detail or {}, **{name: [got, want]})
+            if not abs(got - want) <= 1e-9:
+                r.oracle_fail = '%s%s|%s (%s) = %r, its defining formula gives %r' % (name, groups, crvs, addr, got, want)
+                return
+
     def gen(self, rng, tier):
+        for c in self.gen_trivial(random.Random(rng.getrandbits(32) ^ 0x7B1A), tier):
+            yield c
         n_cases = 70 if tier == 'quick' else 4000
         # the quick tier ends with one round through all optimiser classes in which every class is swept through a
         # reused parameter buffer (among 70 random cases some class would otherwise miss that combination)
@@ -179,7 +248,10 @@ class C15(object):
         r.site = 'C15.' + case['cls']
         r.features = ['cls=%s' % case['cls'], 'x=%s' % case['xkind']]
         try:
-            self.run_inner(case, drv, r)
+            if case.get('kind') == 'trivial':
+                self.run_trivial(case, drv, r)
+            else:
+                self.run_inner(case, drv, r)
         except core.DriverError:
             raise
         except Exception as e:  # noqa
